@@ -141,6 +141,8 @@ def kind_of(v):
 
 
 def examine(case):
+    if case.get("kind") == "deep":
+        return examine_deep(case)
     ast, doc, q = case["ast"], case["doc"], case["q"]
     expected = ev.Evaluator(REGISTRY).query(Q.strip_hints(ast), doc)
     status, got = lib.find(q, doc, env())
@@ -152,6 +154,34 @@ def examine(case):
         return {"bucket": f"table:{c[0]}:{c[1]}:{c[2]}",
                 "what": f"{q} on {json.dumps(doc)[:160]}: comparison is {bool(got)}, RFC 9535 says {bool(expected)}",
                 "expected": bool(expected), "observed": bool(got)}
+    return None
+
+
+def deep_pair(depth, leaf_l, leaf_r, kind):
+    l, rr = leaf_l, leaf_r
+    for i in range(depth):
+        if kind == "arr" or (kind == "mix" and i % 2):
+            l, rr = [l], [rr]
+        else:
+            l, rr = {"k": l}, {"k": rr}
+    return l, rr
+
+
+def examine_deep(case):
+    """Deeply nested comparands: the answer must be right, or (beyond what the interpreter can recurse into) an
+    exception - never a wrong answer.  Exceptions here are C13's business and only counted."""
+    l, rr = deep_pair(case["depth"], case["leaf_l"], case["leaf_r"], case["shape"])
+    doc = {"items": [{"l": l, "r": rr}]}
+    q = "$.items[?@.l %s @.r]" % case["op"]
+    want = ev.compare(case["leaf_l"], case["op"], case["leaf_r"]) if case["op"] in ("==", "!=") else \
+        (ev.cmp_eq(case["leaf_l"], case["leaf_r"]) if case["op"] in ("<=", ">=") else False)
+    status, got = lib.find(q, doc, env())
+    if status == "err":
+        return None
+    if bool(got) != want:
+        return {"bucket": f"table:deep:{case['op']}", "what": f"{q} on comparands nested {case['depth']} deep with leaves "
+                f"{case['leaf_l']!r} / {case['leaf_r']!r}: comparison is {bool(got)}, RFC 9535 says {want}",
+                "expected": want, "observed": bool(got)}
     return None
 
 
@@ -247,8 +277,23 @@ def run_shard(spec, shard):
             f"{len(cells)} cells (8 kinds^2 x 6 ops x 7^2 producers), every cell visited with random values")
     drive(rng(), spec["n"], spec["seed"] + 7, body)
 
+    if spec["shard"] == 0:
+        leaves = [(1, True), (0, False), (1, 1.0), (0.0, False), (None, 0), ("", None), (1, 1), ([], {}), (2, 2.5), ("a", "a")]
+        for depth in (50, 200, 400, 480, 500, 520, 700, 900, 1200, 1600):
+            for shape in ("arr", "obj", "mix"):
+                for ll, lr in leaves:
+                    for op in ("==", "!=", "<=", "<"):
+                        case = {"kind": "deep", "depth": depth, "shape": shape, "leaf_l": ll, "leaf_r": lr, "op": op}
+                        shard.case(key=("deep", depth, shape, repr(ll), repr(lr), op), nontrivial=True,
+                                   classes={"deep-comparands"}, sample=None)
+                        f = examine(case)
+                        if f:
+                            shard.fail(f["bucket"], case, f)
+
 
 def minimise(case, failure, tier):
+    if case.get("kind") == "deep":
+        return case, failure
     bucket = failure["bucket"]
 
     def ok(d):
